@@ -1255,4 +1255,76 @@ example : objs (.node 0 ['r'] [] [
     = [(0, []), (1, []), (2, [(['k'], .int 7)]), (8, []), (3, []), (4, []), (5, []), (6, []),
        (10, [(['k'], .int 7)]), (12, []), (7, [])] := by decide +kernel
 
+/-! ### the same for `replace_logic` -/
+
+theorem replace_nothing_invented_step (cfg : Cfg) (st st' : St) (pr : Str × Option Str)
+    (h : stepReplace cfg st pr = .ok st') :
+    st.next ≤ st'.next ∧
+    ∀ x ∈ objs st'.dst,
+      x ∈ objs st.dst ∨ (cfg.copy = false ∧ x ∈ objs st.tree) ∨ (st.next ≤ x.1 ∧ x.1 < st'.next) := by
+  cases hres : resolveFrom cfg st pr.1 with
+  | error e => simp [stepReplace, hres] at h
+  | ok o =>
+    cases o with
+    | none =>
+      simp only [stepReplace, hres] at h
+      split at h
+      · simp only [Except.ok.injEq] at h; subst h
+        exact ⟨Nat.le_refl _, fun x hx => Or.inl hx⟩
+      · cases h
+    | some y =>
+      obtain ⟨fp, F⟩ := y
+      obtain ⟨hn, hk⟩ := Modify.stepReplace_objs hres h
+      refine ⟨hn, fun x hx => ?_⟩
+      rcases hk x hx with h1 | h1
+      · rw [List.mem_append] at h1
+        rcases h1 with h1 | h1
+        · exact Or.inl h1
+        · cases hc : cfg.copy with
+          | true => simp [hc] at h1
+          | false =>
+            simp only [hc, Bool.false_eq_true, if_false] at h1
+            exact Or.inr (Or.inl ⟨rfl, resolveFrom_objs cfg st pr.1 fp F hres x h1⟩)
+      · exact Or.inr (Or.inr h1)
+
+/-- `shift_and_replace_nodes` / `copy_and_replace_nodes_from_tree_to_tree` with any pair list -/
+theorem replace_nothing_invented (cfg : Cfg) : ∀ (ps : List (Str × Option Str)) (st st' : St),
+    loopReplace cfg st ps = .ok st' →
+    st.next ≤ st'.next ∧
+    ∀ x ∈ objs st'.dst,
+      x ∈ objs st.dst ∨ (cfg.copy = false ∧ x ∈ objs st.tree) ∨ (st.next ≤ x.1 ∧ x.1 < st'.next)
+  | [], st, st', h => by
+    simp only [loopReplace, Except.ok.injEq] at h; subst h
+    exact ⟨Nat.le_refl _, fun x hx => Or.inl hx⟩
+  | p :: ps, st, st', h => by
+    simp only [loopReplace] at h
+    cases hs : stepReplace cfg st p with
+    | error e => simp [hs] at h
+    | ok s1 =>
+      simp only [hs] at h
+      obtain ⟨hn1, hk1⟩ := replace_nothing_invented_step cfg st s1 p hs
+      obtain ⟨hn2, hk2⟩ := replace_nothing_invented cfg ps s1 st' h
+      have htree : ∀ x ∈ objs s1.tree, x ∈ objs st.tree ∨ x ∈ objs s1.dst := by
+        intro x hx
+        have hsrc : s1.src = st.src := (stepReplace_name hs).2
+        unfold St.tree at hx ⊢
+        rw [hsrc] at hx
+        cases hso : st.src with
+        | none => rw [hso] at hx; exact Or.inr (by simpa using hx)
+        | some s => rw [hso] at hx; exact Or.inl (by simpa using hx)
+      refine ⟨by omega, fun x hx => ?_⟩
+      have lift1 : x ∈ objs s1.dst →
+          x ∈ objs st.dst ∨ (cfg.copy = false ∧ x ∈ objs st.tree) ∨ (st.next ≤ x.1 ∧ x.1 < st'.next) := by
+        intro h1
+        rcases hk1 x h1 with h2 | h2 | h2
+        · exact Or.inl h2
+        · exact Or.inr (Or.inl h2)
+        · exact Or.inr (Or.inr ⟨h2.1, by omega⟩)
+      rcases hk2 x hx with h1 | ⟨hc, h1⟩ | h1
+      · exact lift1 h1
+      · rcases htree x h1 with h2 | h2
+        · exact Or.inr (Or.inl ⟨hc, h2⟩)
+        · exact lift1 h2
+      · exact Or.inr (Or.inr ⟨by omega, h1.2⟩)
+
 end C08
